@@ -234,6 +234,51 @@ Proof.
   rewrite (stat_OnCompleted_ok x nd ft t Hr Hi H1 H2). reflexivity.
 Qed.
 
+(* ---------------------------------------------------------------------------------- *)
+(* stat.GetOrCreateResourceNode: the node of a resource is found by NAME                  *)
+
+Ltac gc_split := repeat match goal with |- context [if ?c then _ else _] => destruct c eqn:? end.
+Ltac gc_facts :=
+  repeat match goal with
+  | H : negb _ = true |- _ => apply negb_true_iff in H
+  | H : negb _ = false |- _ => apply negb_false_iff in H
+  | H : andb _ _ = true |- _ => apply andb_true_iff in H; destruct H
+  | H : andb _ _ = false |- _ => apply andb_false_iff in H
+  | H : orb _ _ = false |- _ => apply orb_false_iff in H; destruct H
+  | H : orb _ _ = true |- _ => apply orb_true_iff in H
+  | H : (_ <=? _) = true |- _ => apply Z.leb_le in H
+  | H : (_ <=? _) = false |- _ => apply Z.leb_gt in H
+  | H : (_ <? _) = true |- _ => apply Z.ltb_lt in H
+  | H : (_ <? _) = false |- _ => apply Z.ltb_ge in H
+  | H : (_ =? _) = true |- _ => apply Z.eqb_eq in H
+  | H : (_ =? _) = false |- _ => apply Z.eqb_neq in H
+  end.
+Ltac gc_cases := gc_split; gc_facts; first [reflexivity | exfalso; intuition (congruence || lia)].
+
+(* double-checked lookup.  fast = what the read-locked lookup finds, locked = what the re-check under
+   the write lock finds (0 = no node), fresh = the node NewResourceNode makes, rty = the caller's
+   classification.  tags: 70 GetResourceNode, 71 rnsMux.Lock, 72 defer Unlock, 73 NewResourceNode [rty],
+   74 resNodeMap[name] = node.  A node that is found is returned as it is - the classification the
+   caller passes is only used to CREATE a node; the size of the map only decides about a warning. *)
+Definition get_or_create_spec (fast locked fresh rty : Z) : Z * list leaf_act :=
+  if fast =? 0 then
+    if locked =? 0 then (fresh, [(70, []); (71, []); (72, []); (73, [LZ rty]); (74, [LZ fresh])])
+    else (locked, [(70, []); (71, []); (72, [])])
+  else (fast, [(70, [])]).
+
+Theorem stat_GetOrCreateResourceNode_ok fast locked fresh len rty :
+  stat_GetOrCreateResourceNode fast locked fresh len rty = get_or_create_spec fast locked fresh rty.
+Proof. unfold stat_GetOrCreateResourceNode, get_or_create_spec. cbv zeta. gc_cases. Qed.
+
+(* one caller at a time (both lookups read the same entry v of the table): an existing node is
+   returned for EVERY classification and nothing is created or stored - so every entry of a resource
+   name, whatever options it was entered with, is counted on the same node (the model's node table
+   is keyed by the resource id alone); without a node the fresh one is stored and returned *)
+Corollary stat_GetOrCreateResourceNode_by_name v fresh len rty :
+  stat_GetOrCreateResourceNode v v fresh len rty =
+  if v =? 0 then (fresh, [(70, []); (71, []); (72, []); (73, [LZ rty]); (74, [LZ fresh])]) else (v, [(70, [])]).
+Proof. rewrite stat_GetOrCreateResourceNode_ok. unfold get_or_create_spec. destruct (v =? 0); reflexivity. Qed.
+
 (* the parameters are positional: pin their NAMES (the reads the Go code uses in each position) *)
 Section ParamNames.
 Import Coq.Strings.String.
@@ -244,6 +289,8 @@ Proof. reflexivity. Qed.
 Lemma stat_OnEntryBlocked_params : LeafParams.stat_OnEntryBlocked = "batchCount" :: "flow_type" :: "inbound_node" :: "stat_node" :: nil.
 Proof. reflexivity. Qed.
 Lemma stat_OnCompleted_params : LeafParams.stat_OnCompleted = "batchCount" :: "err" :: "flow_type" :: "inbound_node" :: "now" :: "start" :: "stat_node" :: nil.
+Proof. reflexivity. Qed.
+Lemma stat_GetOrCreateResourceNode_params : LeafParams.stat_GetOrCreateResourceNode = "found_fast" :: "found_locked" :: "fresh" :: "map_len" :: "resource_type" :: nil.
 Proof. reflexivity. Qed.
 Lemma stat_recordPassFor_params : LeafParams.stat_recordPassFor = "count" :: "sn_nil" :: nil.
 Proof. reflexivity. Qed.
@@ -262,3 +309,5 @@ Print Assumptions stat_OnCompleted_go.
 Print Assumptions stat_OnCompleted_ok.
 Print Assumptions run_stats_real_step.
 Print Assumptions run_done_real_step.
+Print Assumptions stat_GetOrCreateResourceNode_ok.
+Print Assumptions stat_GetOrCreateResourceNode_by_name.
